@@ -448,22 +448,19 @@ impl RdbEngine {
                     #[cfg(feature = "verif-hooks")]
                     crate::verif_hooks::point(crate::verif_hooks::RDB_KEY_GET, db_idx as u64);
                     
-                    // Get value
-                    match storage.get(db_idx, &key)? {
-                        GetResult::Found(value) => {
+                    // Get the value together with its expiry, as of one instant
+                    match storage.get_for_snapshot(db_idx, &key)? {
+                        Some((value, expiry)) => {
                             #[cfg(feature = "verif-hooks")]
                             crate::verif_hooks::point(crate::verif_hooks::RDB_KEY_TTL, db_idx as u64);
-                            
-                            // Get TTL if any
-                            let ttl = storage.ttl(db_idx, &key)?;
                             
                             #[cfg(feature = "verif-hooks")]
                             crate::verif_hooks::point(crate::verif_hooks::RDB_KEY_WRITE, db_idx as u64);
                             
                             // Write key-value pair
-                            writer.write_key_value(&key, &value, ttl)?;
+                            writer.write_key_value(&key, &value, expiry)?;
                         }
-                        _ => {
+                        None => {
                             // Key doesn't exist or expired, skip
                         }
                     }
@@ -562,13 +559,13 @@ impl<W: Write> RdbWriter<W> {
     }
     
     /// Write key-value pair
-    fn write_key_value(&mut self, key: &[u8], value: &Value, ttl: Option<Duration>) -> io::Result<()> {
+    fn write_key_value(&mut self, key: &[u8], value: &Value, expiry: Option<SystemTime>) -> io::Result<()> {
         // Write expiry if present
-        if let Some(ttl) = ttl {
-            let expiry_ms = SystemTime::now()
+        if let Some(expiry) = expiry {
+            let expiry_ms = expiry
                 .duration_since(UNIX_EPOCH)
-                .unwrap()
-                .as_millis() as u64 + ttl.as_millis() as u64;
+                .unwrap_or(Duration::from_secs(0))
+                .as_millis() as u64;
             
             self.write_byte(RdbOpcode::ExpireTimeMs as u8)?;
             self.write_u64_le(expiry_ms)?;
